@@ -196,8 +196,8 @@ def check_generated(case) -> Outcome:
                          'right': [inv[x] for x in ln['right']]} for ln in mdesc['links']],
               'attackers': []}
         lg, model, objs, g, err, msg = generate_graph(spec, m2)
-        if err:
-            out.add(err, msg)
+        if err:     # generation problems are C01's business
+            out.classes.append('skipped:' + err)
             return out
         nodes = list(g.nodes)
         idx = {id(x): i for i, x in enumerate(nodes)}
